@@ -57,4 +57,81 @@ THEOREM CloseRecv ==
   ASSUME NEW buf, NEW closed, TypeOK(buf, closed), NEW c \in Chan, CanRecv(buf, closed, c)
   PROVE  CanRecv(buf, [closed EXCEPT ![c] = TRUE], c)
   BY DEF CanRecv
+
+(***************************************************************************)
+(* Rendezvous of a capacity-0 channel.  Pipeline.tla makes it ONE step,    *)
+(* owned by the receiver: it is enabled iff the writer of c is parked on a *)
+(* send to c and the reader of c is parked on a receive from c; it hands   *)
+(* the writer's value to the reader and moves both on.  Process state is   *)
+(* abstracted to the pending operation pend[p] = [op, ch, val] plus what   *)
+(* the process has received (got[p]); a step of a process q changes only   *)
+(* pend[q], got[q] and the buffer of the channel q is parked on.           *)
+(***************************************************************************)
+CONSTANTS Proc, Writer, Reader
+ASSUME Ends == Writer \in [Chan -> Proc] /\ Reader \in [Chan -> Proc]
+Pend == [op : {"send", "recv", "close", "done"}, ch : Chan, val : Val]
+
+PTypeOK(pend, got) == pend \in [Proc -> Pend] /\ got \in [Proc -> Seq(Val)]
+
+CanRdv(pend, c) == /\ Cap[c] = 0
+                   /\ pend[Writer[c]].op = "send" /\ pend[Writer[c]].ch = c
+                   /\ pend[Reader[c]].op = "recv" /\ pend[Reader[c]].ch = c
+RdvVal(pend, c) == pend[Writer[c]].val
+\* nw / nr: the operations writer and reader park on next (a function of their own local state only)
+RdvPend(pend, c, nw, nr) == [pend EXCEPT ![Writer[c]] = nw, ![Reader[c]] = nr]
+RdvGot(pend, got, c)     == [got EXCEPT ![Reader[c]] = Append(@, RdvVal(pend, c))]
+
+\* a step of a third process q (neither end of c): parks on nq, may have received x
+StepPend(pend, q, nq)  == [pend EXCEPT ![q] = nq]
+StepGot(got, q, x)     == [got EXCEPT ![q] = Append(@, x)]
+
+\* a rendezvous on c is not disabled, and its value not changed, by a step of a process that is not an end of c
+THEOREM RdvStable ==
+  ASSUME NEW pend, NEW got, PTypeOK(pend, got), NEW c \in Chan, CanRdv(pend, c),
+         NEW q \in Proc, q # Writer[c], q # Reader[c], NEW nq \in Pend
+  PROVE  /\ CanRdv(StepPend(pend, q, nq), c)
+         /\ RdvVal(StepPend(pend, q, nq), c) = RdvVal(pend, c)
+  BY Ends DEF CanRdv, RdvVal, StepPend, PTypeOK
+
+\* ... and the two steps commute: the same pend and got in either order
+THEOREM RdvCommutes ==
+  ASSUME NEW pend, NEW got, PTypeOK(pend, got), NEW c \in Chan, CanRdv(pend, c), Writer[c] # Reader[c],
+         NEW q \in Proc, q # Writer[c], q # Reader[c], NEW nq \in Pend, NEW x \in Val,
+         NEW nw \in Pend, NEW nr \in Pend
+  PROVE  /\ RdvPend(StepPend(pend, q, nq), c, nw, nr) = StepPend(RdvPend(pend, c, nw, nr), q, nq)
+         /\ RdvGot(StepPend(pend, q, nq), StepGot(got, q, x), c) = StepGot(RdvGot(pend, got, c), q, x)
+<1>1. Writer[c] \in Proc /\ Reader[c] \in Proc
+  BY Ends
+<1>2. RdvVal(StepPend(pend, q, nq), c) = RdvVal(pend, c)
+  BY <1>1 DEF RdvVal, StepPend, PTypeOK
+<1>3. RdvPend(StepPend(pend, q, nq), c, nw, nr) = StepPend(RdvPend(pend, c, nw, nr), q, nq)
+  BY <1>1 DEF RdvPend, StepPend, PTypeOK
+<1>4. RdvGot(StepPend(pend, q, nq), StepGot(got, q, x), c) = StepGot(RdvGot(pend, got, c), q, x)
+  BY <1>1, <1>2 DEF RdvGot, StepGot, PTypeOK
+<1> QED BY <1>3, <1>4
+
+\* two rendezvous on different channels with four distinct ends commute and do not disable one another
+THEOREM RdvRdv ==
+  ASSUME NEW pend, NEW got, PTypeOK(pend, got), NEW c \in Chan, NEW d \in Chan, CanRdv(pend, c), CanRdv(pend, d),
+         Writer[c] # Reader[c], Writer[d] # Reader[d],
+         Writer[c] # Writer[d], Writer[c] # Reader[d], Reader[c] # Writer[d], Reader[c] # Reader[d],
+         NEW nw \in Pend, NEW nr \in Pend, NEW mw \in Pend, NEW mr \in Pend
+  PROVE  /\ CanRdv(RdvPend(pend, c, nw, nr), d)
+         /\ RdvVal(RdvPend(pend, c, nw, nr), d) = RdvVal(pend, d)
+         /\ RdvPend(RdvPend(pend, c, nw, nr), d, mw, mr) = RdvPend(RdvPend(pend, d, mw, mr), c, nw, nr)
+<1>1. Writer[c] \in Proc /\ Reader[c] \in Proc /\ Writer[d] \in Proc /\ Reader[d] \in Proc
+  BY Ends
+<1>2. CanRdv(RdvPend(pend, c, nw, nr), d) /\ RdvVal(RdvPend(pend, c, nw, nr), d) = RdvVal(pend, d)
+  BY <1>1 DEF CanRdv, RdvVal, RdvPend, PTypeOK
+<1>3. RdvPend(RdvPend(pend, c, nw, nr), d, mw, mr) = RdvPend(RdvPend(pend, d, mw, mr), c, nw, nr)
+  BY <1>1 DEF RdvPend, PTypeOK
+<1> QED BY <1>2, <1>3
+
+\* a capacity-0 channel never accepts a buffered send, so it never holds a value and the buffered receive (CanRecv) and
+\* the rendezvous never compete for the same channel; a rendezvous touches no buffer at all (buf is not an argument of
+\* RdvPend / RdvGot), so buffered operations elsewhere see the same channel state before and after it
+THEOREM CapZeroNeverBuffered ==
+  ASSUME NEW buf, NEW closed, TypeOK(buf, closed), NEW c \in Chan, Cap[c] = 0
+  PROVE  ~CanSend(buf, closed, c)
+  BY CapType DEF CanSend, TypeOK
 =============================================================================
